@@ -283,8 +283,12 @@ func run(r *vkit.Report) {
 		r.Cases(group, n, workers, fn)
 		wall[group] = float64(time.Since(t0).Milliseconds()) / 1000
 	}
+	ics := initCases(r.Thorough())
+	nGrow := r.Scale(72, 288)
+	timed("init", len(ics), func(c *vkit.Case) { runInit(c, ics) })
 	timed("large", nLarge, runLarge)
 	timed("thr", nThr, runThr)
+	timed("grow", nGrow, runGrow)
 	timed("heap", nHeap, runHeap)
 	timed("pq", nPQ, func(c *vkit.Case) { runPQCase(c, nil) })
 	timed("pos", nPos, func(c *vkit.Case) {
@@ -307,7 +311,7 @@ func run(r *vkit.Report) {
 		r.SetExtra("violating_cases_by_group", out)
 	}
 	violTrack.Unlock()
-	r.SetExtra("histories", map[string]int{"large (up to 70000+ items)": nLarge, "thr (size boundaries 2^k-1, 2^k, 2^k+1, k <= 16)": nThr, "heap": nHeap, "pq": nPQ, "pos (every size 1..16 x every index x action x build)": nPos})
+	r.SetExtra("histories", map[string]int{"init (constructed from initial slices up to 300000 items)": len(ics), "grow (Grow/Shrink sweeps)": nGrow, "large (up to 70000+ items)": nLarge, "thr (size boundaries 2^k-1, 2^k, 2^k+1, k <= 16)": nThr, "heap": nHeap, "pq": nPQ, "pos (every size 1..16 x every index x action x build)": nPos})
 
 	// Coverage floors: sums over the whole (seed-determined) case list.
 	q := int64(1)
@@ -325,6 +329,21 @@ func run(r *vkit.Report) {
 		fl("new strict minimum inserted into a "+what+" holding >= 4095", "large: new strict minimum inserted", what+" holding >= 4095", 200)
 		fl(what+" Pop directly followed by an insert while holding >= 4096", "large: Pop directly followed by an insert", what+" holding >= 4096", 50000)
 	}
+	for _, n := range initBig {
+		r.Floor(fmt.Sprintf("heaps / queues constructed from an initial slice of %d items", n), r.Table("init: constructed from an initial slice of size", fmt.Sprint(n)), 4)
+	}
+	for k := 1; k <= 16; k++ {
+		for _, n := range []int{1<<k - 1, 1 << k, 1<<k + 1} {
+			r.Floor(fmt.Sprintf("heaps / queues constructed from an initial slice of %d items", n), r.Table("init: constructed from an initial slice of size", fmt.Sprint(n)), 4)
+		}
+	}
+	for _, what := range []string{"Heap", "PQ"} {
+		for _, content := range initContents {
+			r.Floor("big initial slices with contents "+content+" ("+what+")", r.Table("init: contents", what+" "+content), 8)
+		}
+		r.Floor(what+" Grow(n) with n at 2^k-1, 2^k, 2^k+1 (k <= 18)", r.Table("grow: "+what+".Grow(n) with n at", "2^k-1, 2^k, 2^k+1"), 57*30)
+	}
+	r.Floor("Heap Shrink(n) with n at 2^k-1, 2^k, 2^k+1 (k <= 18)", r.Table("grow: Heap.Shrink(n) with n at", "2^k-1, 2^k, 2^k+1"), 57*30)
 	for k := 1; k <= thrMaxK; k++ {
 		got := int64(1 << 62)
 		for _, n := range []int{1<<k - 1, 1 << k, 1<<k + 1} {
